@@ -284,9 +284,29 @@ func (m *Monitor) Feed(e TraceEvent) {
 		} else {
 			m.ev(FsEvent{Kind: "meta"})
 		}
-	case "unlinkat", "unlink":
-		p, _ := firstQuoted(e.Args)
-		if failed || !m.inDir(p) {
+	case "unlinkat", "unlink", "rmdir":
+		p, rest := firstQuoted(e.Args)
+		if failed {
+			return
+		}
+		if e.Call == "rmdir" || strings.Contains(rest, "AT_REMOVEDIR") {
+			// a directory is gone: descriptors still open on it refer to the dead inode, and an fsync
+			// through one of them says nothing about a directory created later under the same name
+			if !strings.HasPrefix(p, "/") {
+				if i := strings.Index(e.Args, ","); i > 0 {
+					if base := m.fd[strings.TrimSpace(e.Args[:i])]; base != "" {
+						p = base + "/" + p
+					}
+				}
+			}
+			for fd, q := range m.fd {
+				if q == p {
+					m.fd[fd] = q + " (removed)"
+				}
+			}
+			return
+		}
+		if !m.inDir(p) {
 			return
 		}
 		if isWal(p) {
